@@ -9,7 +9,7 @@ use std::rc::Rc;
 pub const DEF: PropDef = PropDef {
     id: "C13",
     level: "exploration",
-    rule: "(valid program) x (statement position) x (context-independent syntax fault): (1) 20 hand-written contexts (first/last line, after blank lines, after a two-line comment, after two-line strings with and without suffix, inside if / else / nested loops / function bodies, with and without final newline) x the fault catalogue; (2) every block-nesting shape up to 5 (thorough 6) nodes x every simple-statement position x the fault catalogue; (3) every shape x every block header x header faults; fault catalogue = statements with the last required operand removed, with a required keyword removed, two statements joined on one line, an invalid identifier, an unterminated string, an unterminated comment; oracle: parse returns Err and the rendered message names the line on which the offending or missing token lies (known by construction); non-trivial = all cases; distinct = distinct text",
+    rule: "(valid program) x (statement position) x (context-independent syntax fault): (1) 22 hand-written contexts (first/last line, after blank lines, after a two-line comment, after two-line strings with and without suffix, inside if / else / nested loops / function bodies, with and without final newline) x the fault catalogue; (2) every block-nesting shape up to 5 (thorough 7) nodes x every simple-statement position x the fault catalogue; (3) every shape x every block header x header faults; fault catalogue = statements with the last required operand removed, with a required keyword removed, two statements joined on one line, an invalid identifier, an unterminated string, an unterminated comment; oracle: parse returns Err and the rendered message names the line on which the offending or missing token lies (known by construction); non-trivial = all cases; distinct = distinct text",
     assumptions: &["only faults whose effect does not depend on the surrounding program are injected, so the expected line is known by construction", "the error message format `Parse error (line N): ...` is the observation interface"],
     build,
     exhaustive: true,
@@ -61,6 +61,9 @@ pub const CONTEXTS: &[(&str, &str, bool)] = &[
     ("say \"a\n\"\n", "say 9\n", true),
     ("(a\n\n\nb)\nput \"\n\n\" into y\n", "say 9\n", true),
     ("(\n)say 1 (\n\n) (b\n)\n", "say 9\n", true),
+    // CR LF line ends, a comment and noise on the line before
+    ("say 1\r\nsay 2\r\n", "say 9\r\n", true),
+    ("say 1 (c) ! ;\n(d)\n", "say 9\n", true),
 ];
 
 /// faults spanning two lines: (text, line offset of the offending token)
@@ -115,7 +118,7 @@ fn header_lines(text: &str) -> Vec<(usize, usize)> {
 
 fn build(tier: Tier) -> Box<dyn Check> {
     let mut memo = std::collections::HashMap::new();
-    let shapes = Space::union((1..=tier.pick(5, 6)).map(|n| shape_block(n, 3, &mut memo)).collect());
+    let shapes = Space::union((1..=tier.pick(5, 7)).map(|n| shape_block(n, 3, &mut memo)).collect());
     let mut sp = vec![0u64];
     let mut hp = vec![0u64];
     for s in shapes.iter() {
